@@ -8,6 +8,8 @@ Template = ordinary Verus source with directive blocks
     ret <name>                     (name the return value:  -> T   becomes   -> (name: T))
     expect-fail                    (canary: this function MUST fail to verify)
     elide-async                    (R3: delete `async` / `.await`)
+    safety-asserts obligations     (R7: in this extraction the "consensus safety violation" assertions are proof
+                                    obligations like every other assertion, not assumptions)
     derive Clone, Copy             (struct/enum: derive list to put back, default: filtered original)
     sig `a` => `b`                 (logged rewrite in the signature, must match exactly once)
     rewrite[R5] `a` => `b`         (logged rewrite in the body, must match exactly once;
@@ -54,7 +56,7 @@ def sha(s):
 # ----------------------------------------------------------------------------- directives
 
 DIRECTIVE_RE = re.compile(r'/\*@(\s*extract(?:-stmts)?\b.*?)@\*/', re.S)
-SECTION_RE = re.compile(r'^(requires|ensures|decreases|loop\s+\d+|closure\s+(?:\d+|\*)|before\s+`.*`|after\s+`.*`|blockend\s+`.*`|opens_invariants.*|no_unwind.*)\s*$')
+SECTION_RE = re.compile(r'^(requires|ensures|decreases|loop\s+\d+|closure\s+(?:\d+|\*)|before\s+`.*`|after\s+`.*`|blockend\s+`.*`|blockafter\s+`.*`|opens_invariants.*|no_unwind.*)\s*$')
 
 
 class Directive:
@@ -66,6 +68,7 @@ class Directive:
         self.ret = None
         self.expect_fail = False
         self.elide_async = False
+        self.safety_obligations = False
         self.derive = None
         self.traits = []
         self.nopub = False
@@ -115,7 +118,7 @@ def parse_directive(text, line):
             d.loops[int(cur.split()[1])] = body
         elif cur.startswith('closure'):
             d.closures[cur.split()[1] if cur.split()[1] == '*' else int(cur.split()[1])] = body
-        elif cur.startswith('before') or cur.startswith('after') or cur.startswith('blockend'):
+        elif cur.startswith('before') or cur.startswith('after') or cur.startswith('blockend') or cur.startswith('blockafter'):
             where, pat = cur.split(None, 1)
             d.inserts.append((where, pat.strip().strip('`'), body))
         cur, buf = None, []
@@ -161,6 +164,8 @@ def parse_directive(text, line):
                     d.nopub = True
                 elif s == 'elide-async':
                     d.elide_async = True
+                elif s == 'safety-asserts obligations':
+                    d.safety_obligations = True
                 elif s.startswith('derive'):
                     d.derive = [x.strip() for x in s[6:].split(',') if x.strip()]
                 elif s.startswith('traits '):
@@ -263,7 +268,7 @@ def drop_macro_statements(body, what, log):
     return out
 
 
-def rewrite_asserts(body, what, log):
+def rewrite_asserts(body, what, log, safety_as_assumption=True):
     """R7: runtime assertion / panic macros become calls whose precondition is the proof obligation
     "this cannot fail":  assert!(c, ..) -> vassert(c);  assert_eq!(a, b, ..) -> vassert(a == b);
     assert_ne!(a, b, ..) -> vassert(a != b);  panic!(..) / unreachable!(..) / unimplemented!() -> vpanic()."""
@@ -284,7 +289,7 @@ def rewrite_asserts(body, what, log):
         def txt(rng):
             a, b = rng
             return body[toks[a].start:toks[b - 1].end] if b > a else ''
-        safety = any(toks[k].kind == 'str' and 'consensus safety violation' in toks[k].text for k in range(i + 3, j))
+        safety = safety_as_assumption and any(toks[k].kind == 'str' and 'consensus safety violation' in toks[k].text for k in range(i + 3, j))
         fn = 'vassume_safety' if safety else 'vassert'
         if name == 'assert':
             new = fn + '(' + txt(args[0]) + ')'
@@ -745,7 +750,7 @@ def render_item(repo_root, d, log, cache):
     # ---- body drops and rewrites
     body = drop_macro_statements(body, what, log)
     body = rewrite_let_chains(body, what, log)
-    body = rewrite_asserts(body, what, log)
+    body = rewrite_asserts(body, what, log, not d.safety_obligations)
     if d.elide_async:
         sig = elide_async(sig, what, log)
         body = elide_async(body, what, log)
@@ -775,8 +780,8 @@ def render_item(repo_root, d, log, cache):
         if pick is not None and pick >= len(ms):
             raise LostAnchor(f'{what}: anchor `{pat}` occurrence {pick} not found ({len(ms)} matches)')
         mm_ = ms[pick or 0]
-        if where == 'blockend':
-            # just before the closing brace of the innermost block containing the match
+        if where in ('blockend', 'blockafter'):
+            # just before (blockend) / just after (blockafter) the closing brace of the innermost block containing the match
             toks_ = rustsrc.tokenize(body)
             opens_ = []
             off = None
@@ -786,7 +791,7 @@ def render_item(repo_root, d, log, cache):
                 elif tk_.kind == 'punct' and tk_.text == '}':
                     oi_ = opens_.pop()
                     if toks_[oi_].start <= mm_.start() and tk_.start >= mm_.end():
-                        off = tk_.start
+                        off = tk_.start if where == 'blockend' else tk_.end
                         break
             if off is None:
                 raise LostAnchor(f'{what}: no enclosing block for `{pat}`')
